@@ -12,8 +12,8 @@ from .. import common, oglib
 from ..common import Corr, with_alarm, CaseTimeout
 from ..oglib import enc, dec, frac
 
-RULE = ('exhaustive: all chain lists with all-zero charges for (L=1, <=3 chains, 2 ids), (L=2, <=2 chains, 3 ids), '
-        '(L=3, <=2 chains, 2 ids) and coefficients {-1, 1/2, 1, 2} (thorough adds (L=2, 3 chains, 2 ids), (L=3, 3 chains, 2 ids, 2 coefficients)); '
+RULE = ('exhaustive: all chain lists with all-zero charges for (L=1, <=3 chains, 2 ids), (L=2, <=2 chains, 3 ids), (L=2, 3 chains, 2 ids), '
+        '(L=3, <=2 chains, 2 ids) and coefficients {-1, 1/2, 1, 2} (thorough adds (L=3, 2 chains, 3 ids), (L=3, 3 chains, 2 ids, 2 coefficients), (L=4, 2 chains, 2 ids)); '
         'random chain lists L<=5, <=9 chains, ids 0..3 incl. the identity id, charged and uncharged, duplicates, cancelling pairs, single chains; '
         'MPO conversion of every random result and of random consistent layered graphs; malformed stream. '
         'non-trivial = construction succeeds with a non-empty denotation; distinct = distinct (stream, L, #chains, per-site cover branches, result shape)')
@@ -49,10 +49,12 @@ def exhaustive_stream(tier):
     cf = [-1.0, 0.5, 1.0, 2.0]
     yield from ((c, 1) for c in oglib.exhaustive_chain_lists(1, 3, 2, cf))
     yield from ((c, 2) for c in oglib.exhaustive_chain_lists(2, 2, 3, cf))
+    yield from ((c, 2) for c in oglib.exhaustive_chain_lists(2, 3, 2, cf) if len(c) == 3)
     yield from ((c, 3) for c in oglib.exhaustive_chain_lists(3, 2, 2, cf))
     if tier == 'thorough':
-        yield from ((c, 2) for c in oglib.exhaustive_chain_lists(2, 3, 2, cf) if len(c) == 3)
+        yield from ((c, 3) for c in oglib.exhaustive_chain_lists(3, 2, 3, cf) if len(c) == 2)
         yield from ((c, 3) for c in oglib.exhaustive_chain_lists(3, 3, 2, [-1.0, 2.0]) if len(c) == 3)
+        yield from ((c, 4) for c in oglib.exhaustive_chain_lists(4, 2, 2, cf) if len(c) == 2)
 
 
 def malformed_chain_ops(rng, n):
@@ -99,7 +101,7 @@ def _corr_shard(name, shard, nshards, tier, seed):
                 ops2.append(mpo_op(oglib.raw_of_ser(im['graph']), rng, False, d=2))
         oglib.run_ops(c, ops2, [{'cls': cls_mpo}] * len(ops2))
     elif name == 'opchains.random':
-        n = (2500 if not thorough else 40000) // nshards + 1
+        n = (6000 if not thorough else 60000) // nshards + 1
         ops, metas, chg = [], [], []
         for _ in range(n):
             chains, L, oid, charged, tag = oglib.gen_chain_list(rng)
@@ -113,7 +115,7 @@ def _corr_shard(name, shard, nshards, tier, seed):
                 ops2.append(mpo_op(oglib.raw_of_ser(im['graph']), rng, charged, d=(2 if op['length'] >= 4 else None)))
         oglib.run_ops(c, ops2, [{'cls': cls_mpo}] * len(ops2))
     elif name == 'opgraph.to_mpo':
-        n = (1500 if not thorough else 20000) // nshards + 1
+        n = (3000 if not thorough else 30000) // nshards + 1
         ops, metas = [], []
         for _ in range(n):
             raw, L, charged = oglib.gen_layered_graph(rng, dangling=bool(rng.integers(0, 10) == 0))
